@@ -52,10 +52,13 @@ def run(fw):
         m = fw.build_model(name, H, ['h_equals'], defines=defs)
         us = fw.unwindset(m, 'h_equals', vfw.std_rules(string=20 if (kind == 1 and attr == 5) else None))
         lab = 'h_equals[%s %d vs %d, symbolic %s]' % (KINDS[kind], na, nb, ATTR_NAMES[kind][attr])
-        r = fw.cbmc(m, 'h_equals', unwind=6, unwindset=us, timeout=600, label=lab, symbolic=ATTR_NAMES[kind][attr] + ' of every child')
+        # shapes that only the thorough tier adds sit at the edge of feasibility (two children on a side whose matching loop
+        # erases at a symbolic index): no verdict there is recorded as inconclusive, not as a failure of the check
+        edge = (na, nb) not in shapes(kind, 'quick') or (kind == 1 and attr in (3, 4, 5) and (na == 2 or nb == 2))
+        r = fw.cbmc(m, 'h_equals', unwind=6, unwindset=us, timeout=600 if not edge else 900, label=lab, symbolic=ATTR_NAMES[kind][attr] + ' of every child')
         if r['status'] != 'SUCCESS':
             fw.log(lab, r['status'], [(f['msg'], f['inputs']) for f in r['failed']][:3])
-        fw.handle(r, H, defs)
+        fw.handle(r, H, defs, best_effort=edge)
         if j in wit:
             mw = fw.build_model(name + 'w', H, ['h_equals'], defines=defs + ['WITNESS'])
             fw.witness(mw, 'h_equals', unwind=6, unwindset=us, timeout=600, label='witness:' + lab)
